@@ -211,11 +211,12 @@ def _fmt_side(side: List[List[Any]], fmt: str) -> Any:
 
 
 def _str_side(side: List[List[Any]], style: str) -> str:
-    d = _norm(side)  # strings never carry a zero coefficient
-    if not d:
+    d = _norm(side)
+    zeros = [s for s, c in side if c == 0 and s not in d]   # "0A" terms must be dropped by the parser
+    if not d and not zeros:
         return "∅" if style == "spaced" else ""
     parts = []
-    for s, c in d.items():
+    for s, c in list(d.items()) + [(z, 0) for z in zeros[:1]]:
         if c == 1:
             parts.append(s)
         elif style == "tight":
